@@ -633,8 +633,28 @@ def agg_nodes(body, adt_suffix, variant=None):
     return out
 
 
+ALL_FACTS = []  # every Facts object loaded (core.Facts registers itself): lets agg_fields read through constructors
+
+
 def agg_fields(e):
-    return dict(zip(e[4], e[3])) if e and e[0] == "agg" else {}
+    """Field -> operand of a struct / variant construction: an aggregate, or a call of a crate function
+    that only builds one from its parameters (`Item::new(k, c, ..)` for `Item { index: k, conflict: c, .. }`)."""
+    if e and e[0] == "agg":
+        return dict(zip(e[4], e[3]))
+    if e and e[0] == "call":
+        for facts in ALL_FACTS:
+            c = facts.by_spath.get(strip_generics(e[1]), [])
+            if len(c) == 1 and not c[0].is_closure and not any(True for _ in c[0].calls()):
+                b = c[0]
+                r = return_expr(b)
+                if r is None:
+                    continue
+                r = norm(r)
+                if r[0] == "agg" and r[1] == "adt" and r[4]:
+                    m = {V(b.local_name.get(i + 1, "arg%d" % (i + 1))): norm(a) for i, a in enumerate(e[2])}
+                    r = norm(subst(r, m))
+                    return dict(zip(r[4], r[3]))
+    return {}
 
 
 def closure_passed_to(facts, cb):
@@ -798,6 +818,16 @@ class Iteration:
         return bi not in again
 
 
+def iterates(it, coll, mutable=None):
+    """Does iteration `it` run over the collection expression `coll`: coll.iter(), coll.iter_mut(), or
+    `for x in &coll` / `&mut coll` / `coll`?"""
+    src = it.source
+    coll = norm(coll)
+    if (is_call(src, "iter") or is_call(src, "iter_mut")) and norm(src[2][0]) == coll:
+        return mutable is None or mutable == is_call(src, "iter_mut")
+    return src == coll or norm(it.body.expand(src)) == coll
+
+
 def iterations(body):
     out = []
     for bi, t in body.calls():
@@ -813,3 +843,73 @@ def single_iteration(facts, body):
     fb = facts.flat(body)
     its = iterations(fb)
     return its[0] if len(its) == 1 else None
+
+
+# ----------------------------------------------------------------------------------------
+# path-wise symbolic evaluation of small loop-free bodies: what is returned on which path,
+# whatever the spelling (`let mut x = a; if c { x += 1 } x`, `if c { a + 1 } else { a }`, early returns)
+# ----------------------------------------------------------------------------------------
+
+def sym_paths(body, max_paths=128):
+    """[(lits, ret)] for every path of a loop-free body: lits = ((atom, bool), ...) and ret = the value
+    of the return place, both over parameters, fields of *self, constants and call results (locals
+    are substituted by the value they hold on that path).  None if the body has a loop or too many
+    paths.  Writes through pointers other than whole locals are ignored (not tracked)."""
+    live = body.live_blocks()
+    if any(body.in_loop(b) for b in live):
+        return None
+    out = []
+
+    def ev(e, env):
+        e = norm(e)
+        return norm(subst(e, env)) if env else e
+
+    def run(bi, env, lits, depth):
+        if len(out) > max_paths or depth > 200:
+            raise TooManyStates("sym_paths: too many paths in %s" % body.spath)
+        bb = body.blocks[bi]
+        env = dict(env)
+        for st in bb["stmts"]:
+            if st["k"] != "assign":
+                continue
+            pl = st["pl"]
+            if pl["p"]:
+                # a write into part of a local: forget what we knew about it
+                key = body.place_expr({"l": pl["l"], "p": []}, False)
+                if "*" not in pl["p"]:
+                    env.pop(norm(key), None)
+                continue
+            val = ev(body.rvalue_expr(st["rv"], False), env)
+            env[norm(body.place_expr(pl, False))] = val
+        t = bb["term"]
+        if t is None:
+            return
+        k = t["k"]
+        if k == "return":
+            out.append((tuple(lits), env.get(norm(body.place_expr({"l": 0, "p": []}, False)))))
+            return
+        if k == "call":
+            if t["t"] is None:
+                return
+            if not t["dest"]["p"]:
+                env[norm(body.place_expr(t["dest"], False))] = ev(body.call_expr(t, False), env)
+            run(t["t"], env, lits, depth + 1)
+            return
+        if k == "switch":
+            for tgt, atom, pol in edge_literals(body, bi):
+                l2 = lits
+                if atom is not None:
+                    a = ev(atom, env)
+                    # contradictory with what this path already decided?
+                    if any(a == x and pol != v for x, v in lits):
+                        continue
+                    l2 = lits + [(a, pol)]
+                run(tgt, env, l2, depth + 1)
+            return
+        for s2 in body.succs(bi):
+            run(s2, env, lits, depth + 1)
+    try:
+        run(0, {}, [], 0)
+    except RecursionError:
+        return None
+    return out
